@@ -41,6 +41,33 @@ func sigEval(t *T, asg map[string]*big.Int) (*big.Int, bool) {
 				return big.NewInt(0), true
 			}
 		}
+		// t.hasAny(f1, f2, ...) is hasFlag(f1) || hasFlag(f2) || ... over the same flag atoms
+		if strings.HasSuffix(n, "thread).hasAny") && len(t.Args) >= 1 {
+			if call, ok := t.V.(*ssa.Call); ok {
+				any, all := false, true
+				for _, fv := range appendedValues2(call) {
+					k, isK := constInt(fv)
+					if !isK {
+						all = false
+						break
+					}
+					v, ok := asg[fmt.Sprintf("(*bscript/interpreter.thread).hasFlag(%s, %d)", atomName(t.Args[0]), k.Int64())]
+					if !ok {
+						all = false
+						break
+					}
+					if v.Sign() != 0 {
+						any = true
+					}
+				}
+				if all {
+					if any {
+						return big.NewInt(1), true
+					}
+					return big.NewInt(0), true
+				}
+			}
+		}
 		return nil, false
 	case "un":
 		x, ok := sigEval(t.Args[0], asg)
